@@ -101,3 +101,13 @@ Theorem C19_counter_views_are_the_sources :
             GenDecide.gen_ReceivedCidsTotal c = c_rblocks c.
 Proof. exact DecideEq.counters_are_source. Qed.
 Print Assumptions C19_counter_views_are_the_sources.
+
+From DT Require GenHandlers HandlerEq.
+
+(* a voucher (result) is recorded only after it was sent, and a failed send records nothing: the programs
+   that say so run like the ones regenerated from impl/impl.go SendVoucher / SendVoucherResult *)
+Theorem C19_voucher_handlers_are_the_sources : forall k v,
+  HandlerEq.runs_like (HandlerEq.with_self (fun self => GenHandlers.gen_SendVoucher self k v)) (Node.send_voucher k v) /\
+  HandlerEq.runs_like (HandlerEq.with_self (fun self => GenHandlers.gen_SendVoucherResult self k v)) (Node.send_voucher_result k v).
+Proof. exact HandlerEq.voucher_handlers_are_source. Qed.
+Print Assumptions C19_voucher_handlers_are_the_sources.
